@@ -808,7 +808,8 @@ func (ex *Exec) siteAsserts(f *frame, st *State, b *ssa.BasicBlock, ins ssa.Inst
 		env.siteInstr = ins
 		v, err := env.trans(sa.Expr)
 		if err != nil {
-			ex.V.fatal("%s assert at %q: %v", funcName(f.fn), sa.Site, err)
+			ex.oblige(f, st, "assert", sa.Label+":does-not-attach", sa.Label, ins.Pos(), tFalse, "the contract no longer attaches to the code ("+err.Error()+"): "+sa.Text)
+			continue
 		}
 		ex.oblige(f, st, "assert", sa.Label, sa.Label, ins.Pos(), v.t, "assertion before "+sa.Site+": "+sa.Text)
 	}
